@@ -10,7 +10,7 @@ def corpus():
     out = []
     # a notification reply and a request reply back to back in one read: the first goes to the event path
     out.append((L.Sched(labels=["D0", "S*", "i1:" + e("a"), "N:" + hexs("player"), "S*", "D0"] + L.flush(1), note="idle reply + noidle race, replies in one read"),
-                {"requests": {1: ("i", [e("a")])}, "cancelled": set(), "notified": ["player"]}))
+                {"requests": {1: ("i", [e("a")])}, "cancelled": set(), "notified": ["player"], "fault_free": True}))
     # partial failure of a list
     specs = [e("a"), e("b"), L.spec("fail", "5"), e("c")]
     out.append((L.Sched(labels=["D0", "i1:" + ",".join(specs)] + L.flush(1), note="list failing at index 2"),
@@ -21,6 +21,9 @@ def corpus():
     # cancel a queued request
     out.append((L.Sched(labels=["D0", "c1:" + e("one"), "c2:" + e("two"), "c3:" + e("three"), "x2", "S*", "D0"] + L.flush(3), note="cancel a queued request"),
                 {"requests": {1: ("c", [e("one")]), 2: ("c", [e("two")]), 3: ("c", [e("three")])}, "cancelled": {2}, "notified": []}))
+    # back-pressure: a request taken inside the re-idle window while the peer does not read; the window's timer must not touch the write
+    out.append((L.Sched(labels=["D0", "c1:" + e("one"), "S*", "D0", "S*", "D0", "p", "i2:" + e("two") + "," + e("three"), "t150", "u"] + L.flush(2), note="blocked write inside the window"),
+                {"requests": {1: ("c", [e("one")]), 2: ("i", [e("two"), e("three")])}, "cancelled": set(), "notified": [], "fault_free": True}))
     return out
 
 
@@ -29,7 +32,8 @@ def gen(ctx):
     items = corpus()
     n = 150 if ctx.tier == "quick" else 3000
     for _ in range(n):
-        labels, info, nreq = L.gen_session(rng, rng.choice([8, 20, 50, 90]))
+        labels, info, nreq = L.gen_session(rng, rng.choice([8, 20, 50, 90]), pauses=True)
+        info["fault_free"] = True
         items.append((L.Sched(labels=labels + L.flush(nreq), note="random session"), info))
     return items
 
@@ -57,13 +61,17 @@ def run(ctx, only=None):
                     v.append(f"request {rid} never resolved although the server answered everything and the schedule was flushed")
         for m in v[:3]:
             fails.append(Failure(s.model_case(), m, extra={"impl_case": r["impl_case"], "info": {"requests": {str(k): list(x) for k, x in info["requests"].items()}, "cancelled": sorted(info["cancelled"])}}))
+    nties = 0
+    if only is None:
+        tf, nties = L.run_ties(ctx, 25, 500)
+        fails += tf
     if only is not None:
         for r in results:
             print("labels:", " ".join(r["sched"].labels)[:1500], "\nops   :", " ".join(r["ops"])[:1500], "\nimpl  :", r["impl_raw"][:2500], "\nmodel :", " ".join(r["model_segs"])[:2500])
     dist = {"schedules": len(scheds), "requests": sum(len(i["requests"]) for _, i in items if i), "resolved": resolved,
             "cancelled": sum(len(i["cancelled"]) for _, i in items if i), "notifications": sum(len(i["notified"]) for _, i in items if i)}
     return finish(
-        ctx, evaluations=len(scheds), distinct_nontrivial=nontrivial,
+        ctx, evaluations=len(scheds) + nties, distinct_nontrivial=nontrivial,
         rule="random schedules: up to ~25 requests (single commands and lists of 1..5 commands, some failing part-way, some with binary replies) from "
              "concurrent callers, cancellations of queued and in-flight requests, interleaved subsystem changes, server steps, deliveries of 1..all "
              "bytes and clock advances, then a flush; an echo server makes every reply identify its request line; the oracle recomputes from the "
@@ -74,6 +82,8 @@ def run(ctx, only=None):
 
 
 def replay(ctx, payload):
+    if payload.get("extra", {}).get("tie"):
+        return L.replay_tie(ctx, payload)
     items = []
     infos = payload.get("extra", {}).get("info")
     for c in payload.get("cases", []):
